@@ -417,22 +417,53 @@ func checkC06(R *Run) {
 				"the per-bit subset check before Create is broken: "+fmt.Sprint(res.why))
 
 			// subset-bitmap
-			bm, isAlloc := bmVal.(*ssa.Alloc)
-			if !isAlloc {
+			// the cell: a local variable, or a field of a local struct variable (every address of that field)
+			cellSet := map[ssa.Value]bool{}
+			var cellRefs []ssa.Instruction
+			okB := true
+			var whyB []string
+			switch c := bmVal.(type) {
+			case *ssa.Alloc:
+				cellSet[c] = true
+				cellRefs = append(cellRefs, *c.Referrers()...)
+			case *ssa.FieldAddr:
+				base, isLocal := c.X.(*ssa.Alloc)
+				if !isLocal {
+					break
+				}
+				for _, r := range *base.Referrers() {
+					switch x := r.(type) {
+					case *ssa.FieldAddr:
+						if x.Field == c.Field {
+							cellSet[x] = true
+							cellRefs = append(cellRefs, *x.Referrers()...)
+						}
+					case *ssa.DebugRef, *ssa.UnOp:
+					default:
+						// the whole struct written or handed out: only before the check starts
+						if !instrDominates(r, checkStart) {
+							okB = false
+							whyB = append(whyB, "the struct holding the bitmap is written or handed out after the check started at "+P.ipos(r))
+						}
+					}
+				}
+			}
+			if len(cellSet) == 0 {
 				R.und("subset-bitmap", construct, pos, "the tested bitmap is not a local variable cell")
 				continue
 			}
-			okB := true
-			var whyB []string
 			// Create's argument derives from NewAccount(..., load bm) or a composite with Access = load bm
 			derives := false
 			F := &Flow{P: P, Call: func(c *ssa.Call, idx int) ([]ssa.Value, bool) {
 				if calleeName(&c.Call) == "hotline.NewAccount" && len(c.Call.Args) == 4 {
+					if ld, ok := c.Call.Args[3].(*ssa.UnOp); ok && ld.Op == token.MUL && cellSet[ld.X] {
+						derives = true
+					}
 					return []ssa.Value{c.Call.Args[3]}, true
 				}
 				return nil, true
 			}, Visit: func(x ssa.Value) bool {
-				if x == ssa.Value(bm) {
+				if cellSet[x] {
 					derives = true
 					return false
 				}
@@ -449,7 +480,7 @@ func checkC06(R *Run) {
 				okB = false
 				whyB = append(whyB, "the Access of the account passed to Create does not come from the bitmap that was checked")
 			}
-			for _, r := range *bm.Referrers() {
+			for _, r := range cellRefs {
 				switch x := r.(type) {
 				case *ssa.DebugRef:
 				case *ssa.UnOp:
